@@ -3,6 +3,7 @@ Public API as data (`Op`), the system step function, the line protocol and the c
 the C++ harness (harness/harness.cpp).  Containers 0,1 ("a","b") have inline capacity N, containers 2,3 ("c","d") M.
 -/
 import SvModel.Ops
+import SvModel.Gen.Compare
 
 namespace SvModel
 
@@ -44,7 +45,10 @@ def Sys.isAlive (s : Sys) (x : Nat) : Bool := s.alive.getD x false
 
 def initWorld (N M : Nat) : World Int :=
   { mem := fun b => if b < 2 then List.replicate N .raw else if b < 4 then List.replicate M .raw else [],
-    hdr := fun c => { N := if c < 2 then N else M, inl := c, cap := 0, size := 0, data := c, alloc := 0 },
+    hdr := fun c =>
+      let n := if c < 2 then N else M
+      -- a container with inline capacity 0 has no in-object buffer: its "inline" data pointer is null (one shared empty block)
+      { N := n, inl := if n = 0 then nullBlk else c, cap := 0, size := 0, data := if n = 0 then nullBlk else c, alloc := 0 },
     owner := fun _ => 0, live := [], next := 4, ntmp := tmpBase, faults := [], trace := [], ub := [] }
 
 def initSys (N M : Nat) : Sys := { w := initWorld N M, alive := [false, false, false, false] }
@@ -64,7 +68,8 @@ def Op.valid (s : Sys) : Op → Bool
   | .pbm x _ => s.isAlive x
   | .ins x p arg | .insn x p _ arg =>
       s.isAlive x && p ≤ (s.w.hdr x).size && (match arg with | .ext _ => true | .self i => i < (s.w.hdr x).size)
-  | .insm x p _ | .insr x p _ _ => s.isAlive x && p ≤ (s.w.hdr x).size
+  | .insm x p _ => s.isAlive x && p ≤ (s.w.hdr x).size
+  | .insr x p k vs => s.isAlive x && p ≤ (s.w.hdr x).size && (k == .fw || p == (s.w.hdr x).size || vs.isEmpty)
   | .era x p => s.isAlive x && p < (s.w.hdr x).size
   | .erar x p q => s.isAlive x && p ≤ q && q ≤ (s.w.hdr x).size
   | .pop x => s.isAlive x && 0 < (s.w.hdr x).size
@@ -102,7 +107,7 @@ def opM (ac : ApiCfg) (s : Sys) : Op → M Int Out
   | .insr x p .fw vs => (if vs.isEmpty then pure p else insertRangeFwd ac.cfg x p (extSrcs vs)) >>= fun i => pure (.idx i)
   | .insr x p .inp vs =>
       (if vs.isEmpty then pure p
-       else if p = (s.w.hdr x).size then appendRangeInput ac.cfg x true s.nextStream 0 vs
+       else if p = (s.w.hdr x).size then appendRangeInput ac.cfg x false s.nextStream 0 vs   -- hpp:4084: the non-strong overload
        else throwE .iter) >>= fun i => pure (.idx i)      -- mid-sequence single-pass insert: not modelled (Op.valid excludes it in the driver)
   | .era x p => eraseAt ac.cfg x p >>= fun i => pure (.idx i)
   | .erar x p q => eraseRange ac.cfg x p q >>= fun i => pure (.idx i)
@@ -246,10 +251,33 @@ def parseOp (toks : List String) : Option Op :=
 
 def parseFaults (t : String) : Option (List Nat) := (t.splitOn ",").mapM fun x => x.toNat?
 
+/-! ### C16 lines: comparisons and non-member erase through the generated definitions -/
+def b01 (b : Bool) : String := if b then "1" else "0"
+def ord3Str : Gen.Ord3 → String | .less => "L" | .equiv => "E" | .greater => "G"
+def int3 (a b : Int) : Gen.Ord3 := if a < b then .less else if b < a then .greater else .equiv
+def cmpLine (tag : String) (fallback : Bool) (l r : List Int) : String :=
+  let lt : Int → Int → Bool := fun a b => decide (a < b)
+  let c3 := if fallback then Gen.opCmp3Fallback lt l r else Gen.opCmp3 int3 l r
+  s!"{tag} eq={b01 (Gen.opEq l r)} ne={b01 (Gen.opNe l r)} lt={b01 (Gen.opLt lt l r)} le={b01 (Gen.opLe lt l r)} gt={b01 (Gen.opGt lt l r)} ge={b01 (Gen.opGe lt l r)} c3={ord3Str c3}"
+def nerLine (isIf : Bool) (l : List Int) (k : Int) : String :=
+  let (l', n) := if isIf then Gen.nmEraseIf l (fun x => x % k == 0) else Gen.nmErase l k
+  (if isIf then "nerif [" else "ner [") ++ ",".intercalate (l'.map toString) ++ s!"] {n}"
+
+def pureLine (toks : List String) : Option String :=
+  match toks with
+  | ["cmp", l, r] => do pure (cmpLine "cmp" false (← parseVals l) (← parseVals r))
+  | ["cmpw", l, r] => do pure (cmpLine "cmpw" true (← parseVals l) (← parseVals r))
+  | ["ner", l, k] => do pure (nerLine false (← parseVals l) (← k.toInt?))
+  | ["nerif", l, k] => do let k ← k.toInt?; if k ≤ 0 then none else pure (nerLine true (← parseVals l) k)
+  | _ => none
+
 /-- one protocol line → (new system, observation line); `reset` starts a fresh system -/
 def stepLine (ac : ApiCfg) (N M : Nat) (s : Sys) (line : String) : Sys × String :=
   let line := line.trimAscii.toString
   if line = "reset" then (initSys N M, "reset") else
+  match pureLine (line.splitOn " " |>.filter (· ≠ "")) with
+  | some o => (s, o)
+  | none =>
   let parts := line.splitOn " @"
   let faults? : Option (List Nat) := match parts with
     | [_] => some []
